@@ -41,7 +41,8 @@ META = {
              "or not, plus success runs with 0-3 existing backups; non-trivial = a crash case with a pre-existing file or a success "
              "case with a backup; distinct by (program, stage, pre-existing state); plus inputs that fail or succeed on their own "
              "(no injected fault: unknown names, malformed macros, bad connect records, missing files, branched / disconnected / "
-             "cyclic sequences) x output names with several extensions x pre-existing file or not"),
+             "cyclic sequences) x output names with several extensions x pre-existing file or not"
+             "; directed / added families (waves 10-12): same-process histories starting from gen_coords failures; backup chains with holes"),
 }
 
 FF = """[ moleculetype ]
